@@ -280,7 +280,7 @@ def main():
         f = os.path.join(wd, 'a%d.c' % k); open(f, 'w').write(text)
         cases.append((f, text, ab, want, broken))
     p = subprocess.run([MODELRUN, 'cond'], input='\n'.join(' '.join(c[2]) if c[2] else 'T0' for c in cases) + '\n', capture_output=True, text=True, timeout=300)
-    mouts = p.stdout.strip('\n').split('\n')
+    mouts = p.stdout.split('\n')[:len(cases)]          # one line per case; an empty line is a result (nothing selected)
     def one_a(c):
         rc, out, err = sh([chibi, '-E', c[0]], timeout=30)
         return rc, out, err
